@@ -435,13 +435,13 @@ def run(r) -> None:
     names = [0, 3, 10]
     helper = [dict(present=list(sub), body_time_equal=eq) for n in range(len(names) + 1) for sub in itertools.combinations(names, n) for eq in (True, False)]
     # larger name alphabet, every creation order: the listing order of the directory must not matter
-    more = [1, 7, 25, 100, 2048, 9999]
+    more = [1, 7, 25, 100, 2048, 9999, 10000, 12345]  # incl. indices with more digits than the zero padding
     for n in (2, 3):
         for sub in itertools.combinations(more, n):
             for perm in itertools.permutations(sub):
                 helper.append(dict(present=list(perm), body_time_equal=True))
     r.run_cases("restart-helper", "helper", helper)
-    r.bounds = {"K": K, "checkpoints": "every k in 0..K", "poison": ["none", "all", "each single scratch array (two checkpoints)"], "configurations": len(cases), "helper_subsets": "all 8 subsets of {0,3,10} x body time equal/different + all 2-/3-subsets of {1,7,25,100,2048,9999} in every creation order", "body_time": ["equal", "different"]}
+    r.bounds = {"K": K, "checkpoints": "every k in 0..K", "poison": ["none", "all", "each single scratch array (two checkpoints)"], "configurations": len(cases), "helper_subsets": "all 8 subsets of {0,3,10} x body time equal/different + all 2-/3-subsets of {1,7,25,100,2048,9999,10000,12345} in every creation order", "body_time": ["equal", "different"]}
     r.extra["rule"] = "one state per (configuration, checkpoint index, poison variant): fresh objects + load + continue; every later step compared with the uninterrupted trajectory"
     r.assumptions = ["body arrays are copied by the harness (PyElastica's own restart is exercised only inside the restart helper, on a rigid-cylinder system for which save/load round-trips)",
                      "prescribed rigid-body kinematics (PyElastica kinematic update); a fresh FFTW plan may round differently: 4096 eps tolerance"]
